@@ -16,11 +16,11 @@ func genCase(rt *rapid.T) *caseEnv {
 	me := rapid.IntRange(0, nVal-1).Draw(rt, "me")
 	heights := rapid.SampledFrom([]int{1, 1, 2, 2, 2, 3}).Draw(rt, "heights")
 	env := &caseEnv{
-		vs:      &vset{me: me, prop: map[hr]int{}},
-		startH:  1,
-		heights: heights,
-		delay:   map[timerKey]int{},
-		invalid: map[V]bool{},
+		vs:       &vset{me: me, prop: map[hr]int{}},
+		startH:   1,
+		heights:  heights,
+		delay:    map[timerKey]int{},
+		invalid:  map[V]bool{},
 		concrete: map[types.Height]bool{},
 	}
 	var others []int
